@@ -153,7 +153,7 @@ pub fn c10(o: &Opts) -> Outcome {
     {
         let recs: Vec<Vec<u8>> = vec![b"ACGTTGCATTGACC".to_vec(), b"GGATCGGATC".to_vec(), b"ACGTTGCATTGACCA".to_vec(), b"TTGACCATGGCATT".to_vec(), b"AC".to_vec()];
         cases += recs.len() as u64;
-        if let Some(wt) = with_gzm(|| c10_one(&recs, 6, 3, 2)) { return Outcome { cases, witness: Some(wt) }; }
+        for kind in KINDS { if let Some(wt) = with_kind(kind, &recs, || c10_one(&recs, 6, 3, 2)) { return Outcome { cases, witness: Some(wt) }; } }
     }
     // an output path that already holds a longer listing
     {
